@@ -121,6 +121,9 @@ theorem skeleton_execute : Generated.execute = Expected.execute := by rfl
 theorem source_withConfig : GeneratedSrc.withConfig = ExpectedSrc.withConfig := by rfl
 theorem source_instantiateSource : GeneratedSrc.instantiateSource = ExpectedSrc.instantiateSource := by rfl
 
+/-! ### the built-in source is set up from the executor own parameter map on every incarnation -/
+theorem source_kcSetup : GeneratedSrc.kcSetup = ExpectedSrc.kcSetup := by rfl
+
 /-! ### influence closure: the pinned functions, and every function of the repository that writes a struct field or package
 variable they read, are unchanged (digests regenerated from /repo on every run; a difference names the functions) -/
 theorem closure_unchanged : GeneratedClo.C18 = ExpectedClo.C18 := by rfl
